@@ -70,6 +70,7 @@ affine2f a2_mul(const affine2f &a, const affine2f &b) { return a * b; }
 affine2f a2_rotate(float r) { return affine2f::rotate(r); }
 affine2f a2_translate(const vec2f &p) { return affine2f::translate(p); }
 affine2f a2_scale(const vec2f &s) { return affine2f::scale(s); }
+affine2f a2_rotate_about(const vec2f &p, float r) { return affine2f::rotate(p, r); }
 // ---- Quaternion
 quaternionf q_mul(const quaternionf &a, const quaternionf &b) { return a * b; }
 quaternionf q_conj(const quaternionf &a) { return conj(a); }
